@@ -461,6 +461,19 @@ def tl_systems():
         {"name": "3A->B single cell",
          "spec": {"species": [{"label": "A"}, {"label": "B"}], "reactions": [R([("A", 3)], [("B", 1)], 0.001, 0.5)], "envs": [""],
                   "space": {"type": "grid", "w": 1, "h": 1, "d": 1, "vol": 0.5}, "state": [40.0, 5.0]}},
+        # sparse populations: cells empty out and fill again, so a channel's count of one step must not survive into the
+        # next one (per-step mean of a hop about 0.1 .. 0.5 per molecule)
+        {"name": "sparse: single molecules hopping and reacting on a 3x1x1 grid",
+         "spec": {"species": [{"label": "A", "D": 8.0}, {"label": "B", "D": 4.0}], "reactions": [R([("A", 1)], [("B", 1)], 0.5, 0.25)], "envs": [""],
+                  "space": {"type": "grid", "w": 3, "h": 1, "d": 1, "vol": 1.0}, "state": [1.0, 0.0, 2.0, 0.0, 1.0, 0.0]}},
+        {"name": "sparse: single molecules hopping on a 2x2x1 grid periodic in x",
+         "spec": {"species": [{"label": "A", "D": 6.0}], "reactions": [], "envs": [""],
+                  "space": {"type": "grid", "w": 2, "h": 2, "d": 1, "vol": 1.0, "bc": {"x": "periodical"}}, "state": [2.0, 0.0, 0.0, 1.0]}},
+        {"name": "sparse: single molecules hopping and reacting on a 3-node path graph",
+         "spec": {"species": [{"label": "A", "D": 8.0}, {"label": "B", "D": 4.0}], "reactions": [R([("A", 1)], [("B", 1)], 0.5, 0.25)], "envs": [""],
+                  "space": {"type": "graph", "nodes": [{"vol": 1.0, "env": 0}, {"vol": 1.0, "env": 0}, {"vol": 1.0, "env": 0}],
+                            "edges": [[0, 1, 1.0, 1.0], [1, 2, 1.0, 1.0]]},
+                  "state": [1.0, 0.0, 2.0, 0.0, 1.0, 0.0]}},
     ]
 
 
